@@ -80,6 +80,7 @@ var langs = map[string]langMenu{
 		},
 		// internal: queries whose pipeline tail runs in the in-process planner; they join the fault sweep (G3)
 		internal: []string{
+			`rate({a="b"} | json [1m])`, `sum by (c) (count_over_time({a="b"} | logfmt [5s]))`,
 			`{a="b"} | logfmt | label_format w="const"`, `{a="b"} | json | c="d" | line_format "{{.x}}"`,
 			`{a="b"} | logfmt | drop x | unwrap x`, `rate({a="b"} | logfmt | label_format w="const" [5s])`,
 			`stddev_over_time({a="b"} | json | unwrap x [5s])`, `{a="b"} | logfmt | regexp "(?P<y>\\d+)" |~ "x"`,
